@@ -40,4 +40,33 @@ static int ref_point_list(int closed, int maxn, int64_t* qx, int64_t* qy) {
     if (horizontal) { qx[nq] = qx[0]; qy[nq] = qy[nq - 1]; } else { qx[nq] = qx[nq - 1]; qy[nq] = qy[0]; }
     nq++; }
   return nq; }
+/* repetition field, types 1..11 of the specification -> the offsets it denotes, (0,0) first; returns their number (0 if malformed or more than maxn) */
+/* an unsigned field used as a length: its value, which must be one (a negative number cast to unsigned is not) */
+static int64_t nx_len(void) { uint64_t u = nx_uint(); if (u >> 62) { bad = 1; return 0; } return (int64_t)u; }
+static int ref_repetition(int maxn, int64_t* ox, int64_t* oy) {
+  uint8_t type = nx_byte(); int n = 0;
+#define REF_PUT(x, y) do { if (n < maxn) { ox[n] = (x); oy[n] = (y); } n++; } while (0)
+  if (type == 1 || type == 2 || type == 3) { uint64_t nx_ = 1, ny_ = 1; int64_t sx = 0, sy = 0;
+    if (type != 3) nx_ = nx_uint() + 2; if (type == 1) ny_ = nx_uint() + 2; if (type == 3) ny_ = nx_uint() + 2;
+    if (type != 3) sx = nx_len(); if (type != 2) sy = nx_len();
+    if (nx_ > (uint64_t)maxn || ny_ > (uint64_t)maxn) { bad = 1; return 0; }
+    for (int i = 0; i < maxn; i++) for (int j = 0; j < maxn; j++) if ((uint64_t)i < nx_ && (uint64_t)j < ny_) REF_PUT(i * sx, j * sy); }
+  else if (type >= 4 && type <= 7) { uint64_t cnt = nx_uint() + 2; int64_t grid = (type == 5 || type == 7) ? nx_len() : 1, pos = 0;
+    if (cnt > (uint64_t)maxn) { bad = 1; return 0; }
+    REF_PUT(0, 0);
+    for (int i = 1; i < maxn; i++) if ((uint64_t)i < cnt) { pos += grid * nx_len(); if (type <= 5) REF_PUT(pos, 0); else REF_PUT(0, pos); } }
+  else if (type == 8) { uint64_t nn = nx_uint() + 2, mm = nx_uint() + 2; int64_t ax, ay, bx, by; nx_gd(&ax, &ay); nx_gd(&bx, &by);
+    if (nn > (uint64_t)maxn || mm > (uint64_t)maxn) { bad = 1; return 0; }
+    for (int i = 0; i < maxn; i++) for (int j = 0; j < maxn; j++) if ((uint64_t)i < nn && (uint64_t)j < mm) REF_PUT(i * ax + j * bx, i * ay + j * by); }
+  else if (type == 9) { uint64_t nn = nx_uint() + 2; int64_t ax, ay; nx_gd(&ax, &ay);
+    if (nn > (uint64_t)maxn) { bad = 1; return 0; }
+    for (int i = 0; i < maxn; i++) if ((uint64_t)i < nn) REF_PUT(i * ax, i * ay); }
+  else if (type == 10 || type == 11) { uint64_t cnt = nx_uint() + 2; int64_t grid = type == 11 ? nx_len() : 1, px = 0, py = 0;
+    if (cnt > (uint64_t)maxn) { bad = 1; return 0; }
+    REF_PUT(0, 0);
+    for (int i = 1; i < maxn; i++) if ((uint64_t)i < cnt) { int64_t dx, dy; nx_gd(&dx, &dy); px += grid * dx; py += grid * dy; REF_PUT(px, py); } }
+  else { bad = 1; return 0; }
+#undef REF_PUT
+  if (n > maxn) { bad = 1; return 0; }
+  return n; }
 #endif
